@@ -220,7 +220,7 @@ def run_continuum(case, mesh):
         sC, Cd = spectrum(C[dofs][:, dofs])
         res["K"], res["M"] = sK, sC
         Lc = float(np.ptp(X, axis=0).max())
-        a = rs.uniform(-1, 1, dim) / Lc          # temperature varies by O(1) over the part, whatever the unit
+        a = rs.uniform(0.5, 1.0, dim) * rs.choice([-1.0, 1.0], dim) / Lc   # temperature varies by O(1) over the part, whatever the unit
         T = X @ a + 0.3
         res["lin_energy"] = float(T @ (K @ T))
         res["lin_density"] = float(p["k"] * (a @ a))
@@ -467,7 +467,7 @@ def run_grid(case):
         simu.rho = coef_array(co["rho"], Ne, npg["mass"])
         K, C, M, F = simu.Get_K_C_M_F()
         # gradient lying in the (possibly embedded) element plane / line
-        a_ref = np.zeros(3); a_ref[:dim] = rs.uniform(-1, 1, dim)
+        a_ref = np.zeros(3); a_ref[:dim] = rs.uniform(0.5, 1.0, dim) * rs.choice([-1.0, 1.0], dim)
         a_ref = a_ref / float(case.get("scale") or 1.0)
         a = (np.asarray(case["embed"]["R"], dtype=float) @ a_ref) if case.get("embed") is not None else a_ref
         T = X @ a + 0.3
